@@ -257,6 +257,10 @@ def doRet (s : VmState) (implicit : Bool) : Step :=
     let (c, result) :=
       if s.stack.length > u32 (fr.stackBase + fr.localCount) then s.toCore.pop else (s.toCore, Val.void)
     let c := unwindTo c fr.stackBase
+    -- the frame owned the function value popped by CALL_INDIRECT / CLOSURE_CALL
+    let c := match fr.closure with
+      | some a => c.release (.clos a)
+      | none => c
     match rest with
     | [] => ({ s with toCore := c.push result, frames := [] }, .done)
     | caller :: _ =>
@@ -545,9 +549,13 @@ def execData (m : Module) (fr : Frame) (s : Core) (instrStart : Nat) (op : Opc) 
     let (s, av) := s.pop
     match av with
     | .arr a => match s.heap.obj? a with
-      | some (.arr et es) =>
+      | some (.arr _ es) =>
         if idxInRange (asI64 iv) es.length then
-          cont ({ s with heap := s.heap.setObj a (.arr et (es.eraseIdx (asI64 iv).toNat)) }.push av)
+          let i := (asI64 iv).toNat
+          let s := s.release (es.getD i .void)
+          match s.heap.obj? a with
+          | some (.arr et' es') => cont ({ s with heap := s.heap.setObj a (.arr et' (es'.eraseIdx i)) }.push av)
+          | _ => dang s "array freed during ARR_REMOVE"
         else errS (s.release av) .outOfBounds
       | _ => dang s "dangling array"
     | _ => errS (s.release av) .typeError
